@@ -33,6 +33,11 @@ def upsertRow (av : PCV) (k : Key) (v : Volumes) : Volumes :=
 def upsertVolumes (av : PCV) (vu : PCV) : PCV × PCV :=
   (vu.foldl (fun m e => m.insertWith Volumes.add e.1 e.2) av, vu.mapVal (fun k v => upsertRow av k v))
 
+/-- Volumes of the touched (account, asset) pairs *before* the upsert; a pair without
+    a row counts as zero (the upsert inserts `0 + excluded`). -/
+def preVolumes (av : PCV) (vu : PCV) : PCV :=
+  vu.mapVal (fun k _ => match av.get? k with | some o => o | none => Volumes.zero)
+
 /-! ### moves -/
 
 structure MoveRow where
@@ -49,6 +54,11 @@ structure MoveRow where
   deriving DecidableEq, Repr, Inhabited
 
 def MoveRow.key (m : MoveRow) : Key := (m.account, m.asset)
+
+/-- Projection of a moves row on the columns computed in Go. -/
+def MoveRow.toMove (r : MoveRow) : Move :=
+  { account := r.account, asset := r.asset, amount := r.amount, isSource := r.isSource, pcv := r.pcv }
+
 
 /-- What the move adds to the volumes of its account/asset. -/
 def MoveRow.delta (m : MoveRow) : Volumes :=
@@ -197,15 +207,47 @@ def applyTx (st : Store) (t : TxIn) : Except Err Store :=
           nextTxId := st.nextTxId + 1
           nextSeq := st.nextSeq + ms.length }
 
-/-- Fold of `applyTx` from a given store. -/
-def runFrom : Store → List TxIn → Except Err Store
-  | st, [] => .ok st
-  | st, t :: ts =>
-    match applyTx st t with
-    | .error e => .error e
-    | .ok st' => runFrom st' ts
+/-- The zero rows `GetBalances` creates to lock never-used balances
+    (`INSERT … VALUES (…, 0, 0) ON CONFLICT DO NOTHING`); they persist when the
+    surrounding write commits. -/
+def lockBalances (st : Store) (keys : List Key) : Store :=
+  { st with accountsVolumes :=
+      keys.foldl (fun m k => m.insertWith (fun old _ => old) k Volumes.zero) st.accountsVolumes }
 
-def run (h : List TxIn) : Except Err Store := runFrom {} h
+/-- `UPDATE transactions SET reverted_at = … WHERE id = … AND reverted_at IS NULL`. -/
+def markReverted (st : Store) (id : Nat) (at_ : Int) : Store :=
+  { st with txs := st.txs.map fun r =>
+      if r.tx.id = id ∧ r.tx.revertedAt = none then { r with tx := { r.tx with revertedAt := some at_ } } else r }
+
+/-- Store-level operations. -/
+inductive StoreOp where
+  | commit (t : TxIn)
+  | lock (keys : List Key)
+  | markReverted (id : Nat) (at_ : Int)
+  deriving Repr, Inhabited
+
+def applyOp (st : Store) : StoreOp → Except Err Store
+  | .commit t => applyTx st t
+  | .lock keys => .ok (lockBalances st keys)
+  | .markReverted id a => .ok (markReverted st id a)
+
+def runOpsFrom : Store → List StoreOp → Except Err Store
+  | st, [] => .ok st
+  | st, o :: os =>
+    match applyOp st o with
+    | .error e => .error e
+    | .ok st' => runOpsFrom st' os
+
+/-- Any sequence of store operations from the empty store. -/
+def runOps (ops : List StoreOp) : Except Err Store := runOpsFrom {} ops
+
+/-- Committed transactions from the empty store. -/
+def run (h : List TxIn) : Except Err Store := runOps (h.map StoreOp.commit)
+
+def commitsOf : List StoreOp → List TxIn
+  | [] => []
+  | .commit t :: os => t :: commitsOf os
+  | _ :: os => commitsOf os
 
 /-- The committed history a list of `TxIn` denotes (ids 1, 2, … in commit order). -/
 def recsFrom (id0 : Nat) : List TxIn → List TxRec
